@@ -20,6 +20,13 @@ def spec(tier):
                               fixed=dict(cfg=cfg, ram=25, da=2), timeout=1500))
                 obs.append(CH(name=nm + "_ram", harness="sched.priority", sym=dict(ram=I(2, 90 if th else 45), ma=I(1, 6), tb=I(1, 4)),
                               fixed=dict(cfg=cfg, cpus=2, ta=1, da=2), timeout=1500))
+    # single-operator containers on a pipeline made of two independent chains that progress unevenly, with lower-priority
+    # work competing: the child of the root that finished first is ready while an earlier-listed operator is still blocked
+    for (p1, p2) in ((1, 3), (2, 3), (3, 3)):
+        cfg = dict(algo="priority", pools=1, multi=False, K=K,
+                   pipes=[pipe("twochains", prio=p1, at=0, durs=["da", "db", 1, 2], mems=[1, 1, 1, 1]), pipe("tworoots2", prio=p2, at="ta", durs=[2, 1], mems=[1, 1])])
+        obs.append(CH(name=f"prio_uneven_chains_{p1}{p2}", harness="sched.priority", sym=dict(cpus=I(2, 8), da=I(1, 4), db=I(1, 4), ta=I(0, 3)),
+                      fixed=dict(cfg=cfg, ram=40, ma=1, tb=1), timeout=1500))
     # three query pipelines (two multi-operator query containers next to each other, a third query waiting)
     cfg = dict(algo="priority", pools=1, multi=True, K=K,
                pipes=[pipe("chain3", prio=1, at=0, durs=[2, "da", 1]), pipe("chain2", prio=1, at=0, durs=[1, 3]), pipe("chain2", prio=1, at="tb", durs=[2, 1]),
